@@ -286,7 +286,12 @@ class Interp(object):
 
     # -- program ---------------------------------------------------------------
     def run(self):
+        self.deferred = []
         self.block(0)
+        # hand-offs whose ids were made inside an action but whose work runs after that
+        # action (and the whole program) ended - a queued job or a late thread
+        for job in self.deferred:
+            job()
         return self.forest
 
     def block(self, depth):
@@ -299,6 +304,10 @@ class Interp(object):
                 ops.append("O")
             if self.allow_handoff and depth >= 1 and depth < self.max_depth:
                 ops.append("H")
+            if self.shard.get("deferred") and depth >= 1:
+                ops.append("D")
+            if self.shard.get("reenter") and depth >= 1 and depth < self.max_depth:
+                ops.append("E")
             if self.allow_raise:
                 for j in range(1, depth + 1):
                     ops.append(("R", j))
@@ -313,6 +322,10 @@ class Interp(object):
                 self.do_open(depth + 1)
             elif op == "H":
                 self.do_handoff(depth + 1)
+            elif op == "D":
+                self.do_deferred_handoff()
+            elif op == "E":
+                self.do_reenter(depth)  # no new action level: raise(j) still counts enclosing actions
             else:
                 self.n += 1
                 e = _mk_exc(self.style("exc", N_EXC), self.n)
@@ -371,8 +384,22 @@ class Interp(object):
         ref.status = "succeeded"
         ref.end_fields = fields
 
+    def _late_extractors(self):
+        """After the first failed action: register the extractors of shard["late_ext"]."""
+        late = self.shard.get("late_ext")
+        if late is None or getattr(self, "_late_done", False):
+            return
+        self._late_done = True
+        for cls, how in extractor_config(int(late)).items():
+            self.xcfg[cls] = how
+            register_exception_extractor(cls, _X_FUNCS[cls] if how == "dict" else _x_raise)
+
     def _close_failed(self, ref, e, contextless=False):
         """Called outside the failed action, i.e. in the context finish() ran in."""
+        self._close_failed_inner(ref, e, contextless)
+        self._late_extractors()
+
+    def _close_failed_inner(self, ref, e, contextless=False):
         ref.status = "failed"
         ref.exc = e
         f, boom = self.exc_extra(e)
@@ -583,6 +610,60 @@ class Interp(object):
                 raise
         if self.check_context:
             ctx.check(current_action() is before, "hand-off changed the originating side's current action")
+
+    def do_reenter(self, depth):
+        """Re-enter the current action's context()/run() and run a nested block: no new
+        node in the reference tree, everything logged inside still belongs to that action."""
+        ctx = self.ctx
+        a = self.astack[-1]
+        how = self.style("reenter_style", 2)
+        self.ops.append("E%d(" % how)
+        before = current_action()
+        try:
+            if how == 0:
+                with a.context():
+                    self._expect_current("inside re-entered context()")
+                    self.block(depth)
+            else:
+                a.run(lambda: (self._expect_current("inside re-entered run()"), self.block(depth)))
+        finally:
+            if self.check_context:
+                ctx.check(current_action() is before, "after leaving the re-entered %s of %r current_action() is %r, expected %r (program %s)", "context()" if how == 0 else "run()", a._identification, current_action(), before, self.render())
+
+    def do_deferred_handoff(self):
+        """serialize_task_id now; continue_task only after the program's blocks have ended."""
+        parent = current_action()
+        task_id = parent.serialize_task_id()
+        v = self.value()
+        ref = RefAction("eliot:remote_task", {"x": v}, 9, remote=True)
+        ref.deferred = True
+        self._attach(ref)
+        self.ops.append("D")
+        self.n_handoffs += 1
+        self.n_actions += 1
+        side = self.side + 1 if not self.shard.get("same_side") else self.side
+        ref.side = side
+
+        def job():
+            import contextvars
+
+            saved = self.side
+            self.side = side
+
+            def remote():
+                with Action.continue_task(task_id=task_id, x=v):
+                    mref = RefMessage("t:late", {"x": v})
+                    ref.children.append(mref)
+                    log_message("t:late", x=v)
+                ref.status = "succeeded"
+                ref.end_fields = {}
+
+            try:
+                contextvars.Context().run(remote)
+            finally:
+                self.side = saved
+
+        self.deferred.append(job)
 
     def render(self):
         return " ".join(self.ops)
